@@ -61,7 +61,7 @@ class Aliases:
         return (rec, fld)
 
 
-def canon_loc(db, aliases, f, path):
+def canon_loc(db, aliases, f, path, _depth=0):
     """Canonical name of a memory location / lock: ('F', Record, field) for object members (object identity
     abstracted to its class: sound for 'same lock protects' reasoning when each pool has one queue/mutex),
     ('L', outer function id, local id) for locals (lambdas share the numbering of their parent)."""
@@ -79,6 +79,25 @@ def canon_loc(db, aliases, f, path):
         return ("L", outer_id(db, f), path[1])
     if path[0] == "global":
         return ("G", path[1])
+    if path[0] == "param" and len(path) == 2 and _depth < 3:
+        # an object handed in by reference / pointer: the location every caller passes (when they all agree)
+        pi = path[1]
+        if pi < len(f.params):
+            t = f.types[f.params[pi]["t"]]
+            if t.get("kind") in ("ref", "ptr"):
+                locs = set()
+                for g in db.funcs.values():
+                    if not g.body:
+                        continue
+                    for c in g.calls():
+                        if c.get("f") == f.id and pi < len(c.get("args", [])):
+                            a = strip(c["args"][pi])
+                            if a["k"] == "UnaryOperator" and a["op"] == "&":
+                                a = a["sub"]
+                            locs.add(canon_loc(db, aliases, g, access_path(g, a), _depth + 1))
+                if len(locs) == 1 and None not in locs:
+                    return next(iter(locs))
+        return None
     if path[0] == "param" and len(path) >= 3:
         # field of an object passed by pointer/reference: name by the static record of the parameter
         t = f.types[f.params[path[1]]["t"]]
@@ -119,8 +138,11 @@ class LockSets:
                         if ce is not None and ce["k"] in ("CXXConstructExpr", "CXXTemporaryObjectExpr") and ce.get("args"):
                             lock = canon_loc(self.db, self.aliases, f, access_path(f, ce["args"][0]))
                         self.guards[d["d"]] = lock
+                        # unique_lock(m, std::try_to_lock / std::defer_lock): the constructor does not (reliably) acquire
+                        tags = [t for a in (ce.get("args", [])[1:] if ce is not None else []) for t in walk(a)
+                                if t["k"] == "DeclRefExpr" and str(t.get("n", "")).split("::")[-1] in ("try_to_lock", "defer_lock")]
                         pos = cfg.pos.get(n["id"]) or cfg.position(n)
-                        if pos:
+                        if pos and not tags:
                             self.events[pos].append(("acq", d["d"]))
             elif n["k"] == "CXXMemberCallExpr" and n.get("obj") is not None:
                 p = access_path(f, n["obj"])
@@ -208,8 +230,8 @@ class LockContext:
             for n in f.calls():
                 if callee_name(n) in ("wait", "wait_for", "wait_until") and n.get("frec", "").startswith("std::condition_variable") \
                         and len(n.get("args", [])) >= 2:
-                    lam = strip(n["args"][-1])
-                    if lam["k"] == "LambdaExpr":
+                    lam = lambda_node_of(db, f, n["args"][-1])
+                    if lam is not None:
                         g = access_path(f, n["args"][0])
                         if g and g[0] == "local":
                             lk = self.ls(f).guards.get(g[1])
